@@ -1874,6 +1874,8 @@ func c17RunOne(c *Ctx, h c17Hist, base string) *c17Out {
 		return c17RunTwo(c, h, base)
 	case "poll":
 		return c17RunPoll(c, h, base)
+	case "samedir":
+		return c17RunSameDir(c, h, base)
 	}
 	return c17RunFree(c, h, base)
 }
@@ -2035,6 +2037,7 @@ func checkC17(c *Ctx) {
 		"8% invalid initial files; modes: free (event driven, racing), step (rendezvous through the Reload channel, exact model state, kernel watch table from /proc/self/fdinfo), e2e (dials.Config + JSON decoder), " +
 		"two (two watched files stacked under a Verify that relates them: a file's final content rejected when reported must still be part of the view once the other file makes the whole valid), " +
 		"poll (source built WithPollInterval(40ms): the config's directory is removed and recreated 3-6 intervals later with new content, 2-3 times: only the fallback poll can see it), " +
+		"samedir (the watched path is a symlink retargeted to sibling files of ONE directory, each followed by in-place rewrites of the new target), " +
 		"the direct modes' decoder fails on malformed content with a plain error or with one that wraps ENOENT (the config file exists all the same); " +
 		"plus ..data swaps whose old target stays in place and regular-file-to-symlink transitions, the deterministic regression streams r25/r26/r27 of the repaired defects D25-D27, the inotify-queue-overflow stream ovf (loop parked in the decoder, ~2*(max_queued_events/2+7096) unrelated mkdir/rmdir events, config rewritten, loop released) and an event-filter / select-arm stream; histories run in child processes (listed finding D28 can kill the process); " +
 		"non-trivial: at least 2 operations of at least 2 different (mechanism, content) kinds and at least one reported version; distinct = by operation list and observed report/error sequence"
@@ -2084,6 +2087,9 @@ func checkC17(c *Ctx) {
 	}
 	for i := c.scale(12, 100); i > 0; i-- {
 		hs = append(hs, c17GenPoll(r.Fork(), fmt.Sprintf("p%d", i)))
+	}
+	for i := c.scale(40, 400); i > 0; i-- {
+		hs = append(hs, c17GenSameDir(r.Fork(), fmt.Sprintf("d%d", i)))
 	}
 	for i := 0; i < nKnown; i++ {
 		id := fmt.Sprintf("k%d", i)
